@@ -223,6 +223,45 @@ def check_spec(spec, meta, index):
                         feat = G.features_of(spec)
                         viols.append(C.viol(f'grad:{S}:{method}', f'd/d{t}: observed {go[i].item()!r} expected {ge[i].item()!r}; observed={C.short(g.tolist())} expected={C.short(exp.tolist())}',
                                             context=dict(ctx, K=ref['K'], rho=ref['rho'], features=sorted(feat))))
+        # a weight tensor edited in place between the forward call and backward(): autograd refuses (RuntimeError), which is
+        # fine; what is not fine is a gradient that silently belongs to neither the old nor the new weights
+        if not viols and not meta['typed'] and index % 3 == 0 and spec['terminals']:
+            for S in ('real', 'log'):
+                zref, gref = ref['out'][S]
+                fgg, info = G.build_fgg(fggs, spec, S, torch.float64, requires_grad=True)
+                sr = G.make_semiring(fggs, S, torch.float64)
+                o1 = C.call(lambda: fggs.sum_product(fgg, method='fixed-point', semiring=sr, tol=1e-14, kmax=10000).to_dense())
+                if not o1['ok'] or o1['warnings'] or not o1['value'].requires_grad:
+                    continue
+                z = o1['value']
+                tname = sorted(spec['terminals'])[index % len(spec['terminals'])]
+                w = info['weights'][tname]
+                with torch.no_grad():
+                    (w if isinstance(w, torch.Tensor) else w.physical).mul_(0.5) if S == 'real' else (w if isinstance(w, torch.Tensor) else w.physical).sub_(0.7)
+                if S == 'log':
+                    mask = torch.isfinite(zref)
+                    loss = (torch.where(mask, z, torch.zeros_like(z)) * ref['cot'] * mask).sum()
+                else:
+                    loss = (z * ref['cot']).sum()
+                o2 = C.call(loss.backward)
+                obs['backward_after_inplace_edit'] = obs.get('backward_after_inplace_edit', 0) + 1
+                if not o2['ok']:
+                    obs['backward_after_inplace_edit_refused'] = obs.get('backward_after_inplace_edit_refused', 0) + 1
+                    continue
+                for t in spec['terminals']:
+                    wt = info['weights'][t]
+                    g = (wt if isinstance(wt, torch.Tensor) else wt.physical).grad
+                    gd = gref[t]
+                    if g is None:
+                        continue
+                    wd = torch.tensor(G.weights_in(spec, t, S), dtype=torch.float64).reshape(gd.shape)
+                    sel = torch.isfinite(wd) if S == 'log' else torch.ones_like(wd, dtype=torch.bool)
+                    go, ge = g.reshape(gd.shape)[sel], gd[sel]
+                    scale = float(ge.abs().max()) if ge.numel() else 0.0
+                    if bool((~torch.isclose(go, ge, rtol=1e-6, atol=1e-8 * max(1.0, scale))).any()):
+                        viols.append(C.viol(f'grad-after-inplace-edit:{S}', f'factor {tname} was edited in place after the forward call; backward() did not refuse and d/d{t} is not the derivative of the value that was returned',
+                                            context=dict(semiring=S, edited=tname)))
+                        break
         hooks = dict(h.count)
     return dict(verdict='violated' if viols else 'held', violations=viols, obs=obs, nontrivial=nontrivial, hooks=hooks, rho=ref['rho'])
 
